@@ -33,6 +33,7 @@ type transport struct {
 	nReady  int
 	nOut    int
 	nIn     int
+	curIter int
 }
 
 func newTransport(sim *Sim) *transport {
@@ -80,7 +81,11 @@ func (tr *transport) Write(b []byte) (int, error) {
 		tr.seq++
 		tr.nOut++
 		tr.hist = append(tr.hist, HistLine{Seq: tr.seq, T: tr.sim.Now(), In: false, Text: line})
+		if strings.HasPrefix(line, "info depth") {
+			tr.curIter++
+		}
 		if strings.HasPrefix(line, "bestmove") {
+			tr.curIter = 0
 			tr.nBest++
 		} else if line == "readyok" {
 			tr.nReady++
@@ -109,6 +114,9 @@ func (tr *transport) histLen() int { return len(tr.hist) }
 
 //go:norace
 func (tr *transport) inCount() int { return tr.nIn }
+
+//go:norace
+func (tr *transport) iterNow() int { return tr.curIter + 1 }
 
 //go:norace
 func (tr *transport) histAt(i int) HistLine { return tr.hist[i] }
